@@ -44,7 +44,7 @@ FLOORS = {'ref:reverse-axis': (0.05, 'ref:path'), 'ref:positional': (0.10, 'ref:
           'lxml:verdict': (0.60, 'lxml:path'), 'ref:nonempty': (0.20, 'ref:path'),
           'ref:paren-reverse-step-multi-pred': (0.03, 'ref:path'), 'lxml:paren-reverse-step-multi-pred': (0.03, 'lxml:path'),
           'ref:ns-wildcard': (0.12, 'ref:path'), 'lxml:ns-wildcard': (0.12, 'lxml:path'),
-          'ref:ns-wildcard-hit-in-prefix-uri-doc': (0.015, 'ref:path'), 'ref:paren-multi-pred-nonempty': (0.02, 'ref:path')}
+          'ref:ns-wildcard-hit-in-prefix-uri-doc': (0.015, 'ref:path'), 'ref:paren-reverse-step-2+candidates-at-positional': (0.008, 'ref:path')}
 
 # r -> urn:pp: urn:p (prefix p) is a proper string prefix of it, so p:* / @p:* must not match names in urn:pp
 NS = dict(gx.PATH_NAMESPACES, r='urn:pp')
@@ -57,12 +57,22 @@ _cfg = st.sampled_from(_CFGS).map(lambda t: {'backend': t[0], 'rootkind': t[1], 
 _item = st.one_of(st.none(), st.integers(0, 400))
 
 
+@st.composite
+def _path_case(draw, max_steps):
+    ast = draw(path_asts(max_steps))
+    item = draw(_item)
+    # a parenthesised reverse-axis step evaluated from the root selects nothing: give it a context inside the tree
+    if item is None and ast[0] == 'fpath' and ast[1][0] == 'path' and ast[1][1] == 0 and len(ast[1][2]) == 1 \
+            and ast[1][2][0][1] in xdm.REVERSE and draw(st.integers(0, 7)) > 0:
+        item = draw(st.integers(0, 400))
+    return {'ast': ast, 'item': item}
+
+
 def _cases(max_elems, n_paths, max_steps, cfg=_cfg):
     return st.fixed_dictionaries({
         'spec': gx.tree_specs(max_elems=max_elems, max_depth=4, max_attrs=3, min_elems=5, prefix_uris=True),
         'cfg': cfg,
-        'paths': st.lists(st.fixed_dictionaries({'ast': path_asts(max_steps), 'item': _item}),
-                          min_size=n_paths, max_size=n_paths),
+        'paths': st.lists(_path_case(max_steps), min_size=n_paths, max_size=n_paths),
     })
 
 
@@ -417,6 +427,8 @@ def judge_ref(case, rec: Recorder | None = None) -> list[Disc]:
             if info.nonelem_ctx:
                 classes.append('ref:nonelement-context')
             classes.extend('ref:' + c for c in shape_classes(ast, im.ref, exp))
+            if info.paren_reverse_bite:
+                classes.append('ref:paren-reverse-step-2+candidates-at-positional')
             if exp:
                 classes.append('ref:nonempty')
             if len(exp) >= 2:
